@@ -47,28 +47,28 @@ func SignSHA256(k *Key, tbs []byte) []byte {
 
 // CRLEntry describes one revoked-certificate entry.
 type CRLEntry struct {
-	Serial     *big.Int
-	Reason     int // -1 = no reason extension
-	RevokedAt  time.Time
-	Invalidity time.Time // zero = none
-	UnknownCrit bool     // unknown critical entry extension
+	Serial      *big.Int
+	Reason      int // -1 = no reason extension
+	RevokedAt   time.Time
+	Invalidity  time.Time // zero = none
+	UnknownCrit bool      // unknown critical entry extension
 	ReasonCrit  bool
 }
 
 // CRLSpec describes a CRL to forge.
 type CRLSpec struct {
-	Issuer      *Cert // name taken from here
-	Signer      *Key  // nil = issuer key
-	Number      int64
-	NoNumber    bool
-	ThisUpdate  time.Time
-	NextUpdate  time.Time // zero = absent
-	Entries     []CRLEntry
-	DeltaInd    *int64 // delta CRL indicator (critical)
-	DeltaIndRaw []byte // raw (malformed) indicator value
-	Freshest    []byte // raw freshest-CRL extension value (nil = absent)
-	IssuingDP   bool   // critical issuing-distribution-point (known, benign)
-	UnknownCrit bool   // unknown critical list extension
+	Issuer         *Cert // name taken from here
+	Signer         *Key  // nil = issuer key
+	Number         int64
+	NoNumber       bool
+	ThisUpdate     time.Time
+	NextUpdate     time.Time // zero = absent
+	Entries        []CRLEntry
+	DeltaInd       *int64 // delta CRL indicator (critical)
+	DeltaIndRaw    []byte // raw (malformed) indicator value
+	Freshest       []byte // raw freshest-CRL extension value (nil = absent)
+	IssuingDP      bool   // critical issuing-distribution-point (known, benign)
+	UnknownCrit    bool   // unknown critical list extension
 	UnknownNonCrit bool
 }
 
